@@ -385,7 +385,7 @@ func impl() {
 
 func main() {
 	if len(os.Args) < 2 {
-		fmt.Fprintln(os.Stderr, "usage: c05 gen|impl")
+		fmt.Fprintln(os.Stderr, "usage: c05 gen|impl|extract")
 		os.Exit(2)
 	}
 	switch os.Args[1] {
@@ -394,5 +394,13 @@ func main() {
 		gen(seed, tier)
 	case "impl":
 		impl()
+	case "extract": // T1: print lean/GeomV/C05/Gen.lean for the tree at --repo (see extract.go)
+		repo := "/repo"
+		for i := 2; i+1 < len(os.Args); i++ {
+			if os.Args[i] == "--repo" {
+				repo = os.Args[i+1]
+			}
+		}
+		os.Exit(extract(repo))
 	}
 }
